@@ -452,6 +452,18 @@ func flushLog() {
 			case v := <-logQueue:
 				v.writer.Write(v.value)
 			case <-syncDone.Done():
+				// a flush was requested: when an entry was queued at the same moment, select
+				// may have picked this branch, so write out whatever is queued before
+				// acknowledging the flush
+				for {
+					select {
+					case v := <-logQueue:
+						v.writer.Write(v.value)
+						continue
+					default:
+					}
+					break
+				}
 				asyncCancel()
 				return
 			}
